@@ -341,6 +341,10 @@ class Abstraction(object):
                     return None
                 stack = branch_stack(body)
                 trig, kind = self.thread(stack), "reply"
+            elif t.get("name") == "on_execution_timeout":
+                # (a859c5f) a Retrier's interval cut at the execution's time limit: the retried state's event times the
+                # execution out from a timer of its own — not a letter of the protocol's alphabet; the run is counted
+                raise Unsupported("retry-cut-at-time-limit")
             else:
                 return None
         else:
